@@ -323,6 +323,64 @@ func runHTTPProxyPlugin(method, pauth string) string {
 	return ""
 }
 
+// runHTTPProxySeq: two requests on one kept-alive connection through the embedded server of the http_proxy plugin;
+// the second request (method x credential variant) must reach its target only with the exact credentials,
+// whatever the first request was.
+func runHTTPProxySeq(first, method, pauth string) string {
+	be1, be2 := newBackend("first-target"), newBackend("second-target")
+	defer be1.ln.Close()
+	defer be2.ln.Close()
+	p, err := plugin.Create(v1.PluginHTTPProxy, plugin.PluginContext{Name: "hp"}, &v1.HTTPProxyPluginOptions{HTTPUser: "alice", HTTPPassword: "pw"})
+	if err != nil {
+		return "create: " + err.Error()
+	}
+	defer p.Close()
+	l := servePlugin(p)
+	defer l.Close()
+	c, err := net.Dial("tcp", l.Addr().String())
+	if err != nil {
+		return ""
+	}
+	defer c.Close()
+	_ = c.SetDeadline(time.Now().Add(5 * time.Second))
+	br := bufio.NewReader(c)
+	h1 := ""
+	if first == "authorised" {
+		h1 = "Proxy-Authorization: " + credVariants["alice-ok"] + "\r\n"
+	}
+	fmt.Fprintf(c, "GET http://%s/ HTTP/1.1\r\nHost: %s\r\n%s\r\n", be1.addr(), be1.addr(), h1)
+	resp, err := http.ReadResponse(br, nil)
+	if err != nil {
+		return ""
+	}
+	io.Copy(io.Discard, resp.Body)
+	hdr := ""
+	if v := credVariants[pauth]; v != "" {
+		hdr = "Proxy-Authorization: " + v + "\r\n"
+	}
+	if method == "CONNECT" {
+		fmt.Fprintf(c, "CONNECT %s HTTP/1.1\r\nHost: %s\r\n%s\r\n", be2.addr(), be2.addr(), hdr)
+		if resp, err := http.ReadResponse(br, nil); err == nil && resp.StatusCode == 200 {
+			fmt.Fprintf(c, "GET / HTTP/1.1\r\nHost: x\r\n\r\n")
+			if r2, err := http.ReadResponse(br, nil); err == nil {
+				io.Copy(io.Discard, r2.Body)
+			}
+		}
+	} else {
+		fmt.Fprintf(c, "GET http://%s/ HTTP/1.1\r\nHost: %s\r\n%s\r\n", be2.addr(), be2.addr(), hdr)
+		if resp, err := http.ReadResponse(br, nil); err == nil {
+			io.Copy(io.Discard, resp.Body)
+		}
+	}
+	if be2.count() > 0 && !presents(pauth, "alice", "pw") {
+		return fmt.Sprintf("http_proxy plugin: after a first (%s) GET on the same connection, a %s with Proxy-Authorization=%q was forwarded", first, method, credVariants[pauth])
+	}
+	if first != "authorised" && be1.count() > 0 {
+		return "http_proxy plugin forwarded an unauthorised first GET"
+	}
+	return ""
+}
+
 func runSocks5(mode string) string {
 	be := newBackend("behind-socks5")
 	defer be.ln.Close()
@@ -435,6 +493,125 @@ func runStaticFile(auth string) string {
 		return "401 without challenge"
 	}
 	return ""
+}
+
+// ---- (e) end to end: the credentials configured on a proxy are enforced on every public name of it ----
+
+// runWiring starts a real frps (vhost http port, tcpmux port, sub-domain host) and a real frpc with one protected and
+// one open proxy of each kind (http: two custom domains + sub-domain + two locations; tcpmux: two custom domains +
+// sub-domain) and requests every host x location x credential variant. routeBy = "" | "alice".
+func runWiring(routeBy string) (n int, viols []string, inconclusive string) {
+	httpPort, muxPort := rw.FreePort(), rw.FreePort()
+	srv, err := rw.StartServer(func(s *v1.ServerConfig) {
+		s.VhostHTTPPort, s.TCPMuxHTTPConnectPort, s.SubDomainHost = httpPort, muxPort, "sub.example.org"
+	})
+	if err != nil {
+		return 0, nil, "server: " + err.Error()
+	}
+	defer srv.Close()
+	bes := map[string]*backend{}
+	for _, nme := range []string{"prot", "open", "mprot", "mopen"} {
+		bes[nme] = newBackend(nme)
+		defer bes[nme].ln.Close()
+	}
+	port := func(nme string) int { return bes[nme].ln.Addr().(*net.TCPAddr).Port }
+	hp := &v1.HTTPProxyConfig{}
+	hp.Name, hp.Type, hp.LocalIP, hp.LocalPort = "prot", "http", "127.0.0.1", port("prot")
+	hp.CustomDomains, hp.SubDomain, hp.Locations = []string{"d1.example.com", "d2.example.com"}, "s1", []string{"/", "/adm"}
+	hp.HTTPUser, hp.HTTPPassword, hp.RouteByHTTPUser = "alice", "pw", routeBy
+	ho := &v1.HTTPProxyConfig{}
+	ho.Name, ho.Type, ho.LocalIP, ho.LocalPort = "open", "http", "127.0.0.1", port("open")
+	ho.CustomDomains = []string{"open.example.com"}
+	mp := &v1.TCPMuxProxyConfig{}
+	mp.Name, mp.Type, mp.LocalIP, mp.LocalPort, mp.Multiplexer = "mprot", "tcpmux", "127.0.0.1", port("mprot"), "httpconnect"
+	mp.CustomDomains, mp.SubDomain = []string{"m1.example.com", "m2.example.com"}, "ms"
+	mp.HTTPUser, mp.HTTPPassword, mp.RouteByHTTPUser = "alice", "pw", routeBy
+	mo := &v1.TCPMuxProxyConfig{}
+	mo.Name, mo.Type, mo.LocalIP, mo.LocalPort, mo.Multiplexer = "mopen", "tcpmux", "127.0.0.1", port("mopen"), "httpconnect"
+	mo.CustomDomains = []string{"mopen.example.com"}
+	cli, err := rw.StartClient(srv, "", []v1.ProxyConfigurer{hp, ho, mp, mo}, nil, nil)
+	if err != nil {
+		return 0, nil, "client: " + err.Error()
+	}
+	defer cli.Close()
+	if !cli.WaitRunning(8*time.Second, "prot", "open", "mprot", "mopen") || !rw.WaitPort(httpPort, 3*time.Second) || !rw.WaitPort(muxPort, 3*time.Second) {
+		return 0, nil, "proxies did not come up"
+	}
+	hits := func() map[string]int {
+		m := map[string]int{}
+		for k, b := range bes {
+			m[k] = b.count()
+		}
+		return m
+	}
+	one := func(kind, host, loc, cv string) {
+		n++
+		before := hits()
+		hdrName := "Authorization"
+		p := httpPort
+		if kind == "tcpmux" {
+			hdrName, p = "Proxy-Authorization", muxPort
+		}
+		hdr := ""
+		if v := credVariants[cv]; v != "" {
+			hdr = hdrName + ": " + v + "\r\n"
+		}
+		c, err := net.DialTimeout("tcp", fmt.Sprintf("127.0.0.1:%d", p), 2*time.Second)
+		if err != nil {
+			return
+		}
+		defer c.Close()
+		_ = c.SetDeadline(time.Now().Add(5 * time.Second))
+		br := bufio.NewReader(c)
+		if kind == "http" {
+			fmt.Fprintf(c, "GET %s HTTP/1.1\r\nHost: %s\r\nConnection: close\r\n%s\r\n", loc, host, hdr)
+			if resp, err := http.ReadResponse(br, nil); err == nil {
+				io.Copy(io.Discard, resp.Body)
+			}
+		} else {
+			fmt.Fprintf(c, "CONNECT %s:80 HTTP/1.1\r\nHost: %s:80\r\n%s\r\n", host, host, hdr)
+			if resp, err := http.ReadResponse(br, nil); err == nil && resp.StatusCode == 200 {
+				fmt.Fprintf(c, "GET / HTTP/1.1\r\nHost: inner\r\nConnection: close\r\n\r\n")
+				if r2, err := http.ReadResponse(br, nil); err == nil {
+					io.Copy(io.Discard, r2.Body)
+				}
+			}
+		}
+		after := hits()
+		reached := ""
+		for k := range after {
+			if after[k] > before[k] {
+				reached = k
+			}
+		}
+		prot, open := "prot", "open"
+		if kind == "tcpmux" {
+			prot, open = "mprot", "mopen"
+		}
+		ok := presents(cv, "alice", "pw")
+		isOpen := strings.Contains(host, "open")
+		switch {
+		case reached == prot && !ok:
+			viols = append(viols, fmt.Sprintf("%s proxy with httpUser/httpPassword (routeByHTTPUser=%q): %s %s with credentials %q reached the protected backend", kind, routeBy, host, loc, credVariants[cv]))
+		case !isOpen && ok && reached != prot:
+			viols = append(viols, fmt.Sprintf("%s proxy with httpUser/httpPassword (routeByHTTPUser=%q): %s %s with the exact credentials did not reach its backend (reached %q)", kind, routeBy, host, loc, reached))
+		case isOpen && reached != open && routeBy == "":
+			viols = append(viols, fmt.Sprintf("%s: request for the unprotected host %s %s (credentials %q) did not reach its backend (reached %q)", kind, host, loc, credVariants[cv], reached))
+		}
+	}
+	for _, host := range []string{"d1.example.com", "d2.example.com", "s1.sub.example.org", "D1.Example.Com", "open.example.com"} {
+		for _, loc := range []string{"/", "/adm/x", "/other"} {
+			for _, cv := range credOrder {
+				one("http", host, loc, cv)
+			}
+		}
+	}
+	for _, host := range []string{"m1.example.com", "m2.example.com", "ms.sub.example.org", "mopen.example.com"} {
+		for _, cv := range credOrder {
+			one("tcpmux", host, "", cv)
+		}
+	}
+	return
 }
 
 // ---- (d) dashboard / admin API ----
@@ -644,6 +821,14 @@ func main() {
 				c.Violate("plugin", "httpproxy:"+e, e, map[string]any{"method": m, "pauth": pa})
 			}
 		}
+		for _, first := range []string{"unauthorised", "authorised"} {
+			for _, m := range []string{"GET", "CONNECT"} {
+				c.Count("httpproxyseq:" + first + ":" + m + ":" + pa)
+				if e := runHTTPProxySeq(first, m, pa); e != "" {
+					c.Violate("plugin", "httpproxyseq:"+e, e, map[string]any{"first": first, "method": m, "pauth": pa})
+				}
+			}
+		}
 		c.Count("static:" + pa)
 		if e := runStaticFile(pa); e != "" {
 			c.Violate("plugin", "static:"+e, e, map[string]any{"auth": pa})
@@ -653,6 +838,25 @@ func main() {
 		c.Count("socks5:" + mode)
 		if e := runSocks5(mode); e != "" {
 			c.Violate("plugin", "socks5:"+e, e, mode)
+		}
+	}
+	// (e)
+	drv.E2Replayers["wiring"] = func(raw json.RawMessage) string {
+		var rb string
+		json.Unmarshal(raw, &rb)
+		_, v, _ := runWiring(rb)
+		return strings.Join(v, "; ")
+	}
+	for _, rb := range []string{"", "alice"} {
+		n, v, inc := runWiring(rb)
+		for i := 0; i < n; i++ {
+			c.Count(fmt.Sprintf("wiring:%s:%d", rb, i))
+		}
+		if inc != "" {
+			c.Cap("end-to-end wiring part (routeByHTTPUser=" + rb + ") inconclusive: " + inc)
+		}
+		for _, x := range v {
+			c.ViolateConfirmed("wiring", "wiring:"+x, x, rb, 2)
 		}
 	}
 	// (d)
